@@ -763,7 +763,7 @@ class Describer:
                             return "dnf[" + dnf_text(d) + "]"
                     except AnalysisError:
                         pass
-                fake = ast.Call(func=node, args=[ast.Name(id="this", ctx=ast.Load())], keywords=[])
+                fake = ast.Call(func=node, args=[ast.Name(id="this" if i == 0 else "ctx", ctx=ast.Load()) for i in range(max(1, len(params) - len(fn.args.defaults)))], keywords=[])
                 ev = Evaluator(const_of=const_of, func_of=func_of, this_names=("this",))
                 t = inline_call(fn, fake, ev, lambda env: Evaluator(env=env, const_of=self.folder.const_of(r[2]), func_of=None, this_names=("this",)))
                 if t is not None:
